@@ -40,7 +40,9 @@ def shards(tier):
 
 
 def make_source(rng, j):
-    kind = j % 8
+    kind = j % 9            # (callers pass j + shard, so that every kind occurs in a quick run)
+    if kind == 8:
+        return rng.choice(UNNAMED), None
     if kind >= 6:
         # inside the wasm backend's subset: bytes are actually emitted (int and float temporaries mixed)
         from ..gen import wasmsub
@@ -57,6 +59,32 @@ def make_source(rng, j):
         return whole.mutate(rng.choice(whole.SEEDS), rng), None
     sp = gmod.gen(rng)
     return None, sp
+
+
+UNNAMED = [
+    "export function f (int, float x) -> float {\n  return x * 2.0;\n}\n",
+    "function h (float, float, int k) -> int {\n  return k + 1;\n}\nexport function f (int a) -> int {\n  return h(1.0, 2.0, a);\n}\n",
+    "export function f (float3, int) -> int {\n  return 7;\n}\nexport function g (int a, int) -> int {\n  return a;\n}\n",
+]
+
+
+def clash_source(rng, target):
+    """a program whose *globals*, struct and functions are named like the locals, parameters, structs and functions of the
+    target: whatever one compilation leaves behind by name must not reach the next one"""
+    import re
+    ids = sorted(set(re.findall(r"\b(?:int|float|uint|float[234]|int[234]|float[34]x[34])\s+([A-Za-z_]\w*)", target)))
+    rng.shuffle(ids)
+    lines = []
+    structs = sorted(set(re.findall(r"\bstruct\s+([A-Za-z_]\w*)", target)))
+    for sname in structs[:2]:
+        lines.append("struct %s {\n  int zzq;\n  float3 zzw;\n}" % sname)
+    for n_ in ids[:8]:
+        lines.append("%s %s;" % (rng.choice(["int", "float", "float3", "int[3]"]), n_))
+    fnames = sorted(set(re.findall(r"\bfunction\s+([A-Za-z_]\w*)", target)))
+    for fnm in fnames[:3]:
+        lines.append("function %s (float4 q_, int r_) -> float4 {\n  return q_ * r_;\n}" % fnm)
+    lines.append("export function clash_main (int a_) -> int {\n  return a_;\n}")
+    return "\n".join(lines) + "\n"
 
 
 def history_sources(rng, k):
@@ -96,6 +124,7 @@ def check_source(R, rng, src, opt, cwd, tier, scratch_repo=None):
         R.add_to("outcome_kinds", "ir:%s wasm:%s" % ("digest" if len(ref["ir"]) == 64 else ref["ir"], "digest" if len(ref["wasm"]) == 64 else ref["wasm"]))
         compare(R, ref, pdigest.digest_of(src, opt), "fresh-compiler-same-process", src, opt)
         hist = history_sources(rng, rng.randint(1, 20 if tier == "thorough" else 6))
+        hist.insert(rng.randrange(len(hist) + 1), clash_source(rng, src))
         for h in hist:
             try:
                 pdigest.digest_of(h, opt)
@@ -145,7 +174,7 @@ def run_shard(tier, seed, shard, n, R):
         for j in range(BUDGET[tier]):
             s = (seed * 1000003 + shard) * 100000 + j
             rng = random.Random(s)
-            src, sp = make_source(rng, j)
+            src, sp = make_source(rng, j + shard)
             cwd = None
             if sp is not None:
                 cwd = os.path.join(tmp, "m%d" % j)
@@ -161,7 +190,7 @@ def run_shard(tier, seed, shard, n, R):
                     R.count("import_setup_failed")
                     continue
                 src = sp.layouts[sp.roots[0][0]][0]
-            opt = bool(j % 2)
+            opt = bool((j // 3 + shard) % 2)
             use_scratch = scratch if (scratch is not None and (tier == "thorough" and j % 10 == 0 or tier == "quick" and j == 0)) else None
             check_source(R, rng, src, opt, cwd, tier, use_scratch)
             if j == 0:
